@@ -66,6 +66,11 @@ pub fn check_case(case: &Case) -> CheckResult {
     let mut r = CheckResult::default();
     let text = &case.files[0].1;
     let v = verdict(text);
+    // every fourth case: another parser of this thread first meets a file that collects
+    // diagnostics and then fails fatally
+    if fnv(text) % 4 == 0 {
+        let _ = run_files(&[("zz-broken".to_string(), "package z; interface Z { int ; void f() = 99999999999; }\n#".to_string())]);
+    }
     let obs = match run_files(&case.files) {
         Ok(o) => o,
         Err(p) => {
